@@ -30,7 +30,7 @@ RULE = (
 BOUNDS = {
   "quick": "12 transmissions x 6 dyntypes x 4 gaintypes x 4 biastypes x 2 limit sets x 16 flag assignments; "
   "dcmotor shortcut family (11 configs x 4 transmissions x 2); 9 input worlds x 2 CLAMPCTRL",
-  "thorough": "quick + all ordered pairs of (dyn,gain,bias) classes sharing a force-limited joint and a force-limited tendon",
+  "thorough": "quick + all ordered pairs of the 45 non-user (dyn,gain,bias) classes sharing a force-limited joint and a force-limited tendon",
 }
 ASSUMPTIONS = [
   "MuJoCo C 3.13 is the reference (float64 vs float32, class f32 = 2e-5*(1+max|ref| of that actuator's field over the worlds))",
@@ -124,7 +124,8 @@ def scenarios(tier, seed):
       out.append(dict(fam="actpassive", trn=trn, k=k, variant=v))
   out.append(dict(fam="dcnone", trn="joint_hinge", variant=v))
   if tier == "thorough":
-    classes = list(itertools.product(DYNS, GAINS, BIASES))
+    # 'user' types add nothing to the shared clamps (and deviate on their own, see candidates/C03.md): pairs over the other classes
+    classes = list(itertools.product(DYNS[:-1], GAINS[:-1], BIASES[:-1]))
     for trn in ("joint_hinge", "tendon_fixed"):
       for a, b in itertools.product(classes, classes):
         if a != b:
@@ -443,8 +444,12 @@ def execute(scn):
     inter = ""
     if scn.get("fl") == 1:
       inter = ":tenfrc*forcerange"  # tendon total-force limit together with actuator force ranges
-    elif scn["fam"] == "dcmotor" and lim and scn["trn"].startswith("tendon") and ("lugre" in DCMOTORS[scn["dc"]] or "cogging" in DCMOTORS[scn["dc"]]):
-      inter = ":tenfrc*dcmotor_mech"  # ... together with the DC motor's mechanical (cogging / LuGre) forces
+    elif scn["fam"] == "dcmotor" and lim and scn["trn"].startswith("tendon"):
+      cfg = DCMOTORS[scn["dc"]]
+      if "lugre" in cfg or "cogging" in cfg:
+        inter = ":tenfrc*dcmotor_mech"  # ... together with the DC motor's mechanical (cogging / LuGre) forces
+      elif "saturation" in cfg:
+        inter = ":tenfrc*forcerange"  # saturation = an actuator force range
     tag = f":lim={lim}{inter}:clampoff={clamp_off}"
     for u in range(nact):
       lab = labels[u]
@@ -456,6 +461,8 @@ def execute(scn):
         c.close(f"act_dot[{u}]{tag}", got["act_dot"][g, a0 : a0 + an], ref["act_dot"][g, a0 : a0 + an], "f32", vkey=f"act_dot:{lab}{tag}")
         c.close(f"act_next[{u}]{tag}", got["act_next"][g, a0 : a0 + an], ref["act_next"][g, a0 : a0 + an], "f32", vkey=f"act_next:{lab}{tag}")
     what = labels[first].rsplit(":flags=", 1)[0]
+    if scn["fam"] == "pair":
+      what = f"trn={scn['trn']}:pair:" + "|".join("/".join(scn[k]) for k in ("a", "b"))
     c.close(f"qfrc_actuator{tag}", got["qfrc_actuator"][g], ref["qfrc_actuator"][g], "f32", vkey=f"qfrc_actuator:{what}{tag}")
     # qfrc_actuator must also be the transmission of MJWarp's own forces (keeps its teeth when a force is known-wrong):
     # clamp(moment^T force + actuator-level gravity compensation) with MuJoCo's gravcomp and ranges
